@@ -110,6 +110,39 @@ let do_ot () =
   let pr = match prescribed p o with None -> "forbidden" | Some None -> "keep" | Some (Some x) -> string_of_int (int_of_orient x) in
   Printf.printf "%d %d %d | %s\n" (int_of_orient (cell_orientation_in_row p o)) (int_of_orient (opposite_row_orientation o)) (b2i (is_turn o)) pr
 
+let show_dstate s =
+  let rowS r = String.concat "," (List.map (fun c -> Printf.sprintf "%d:%s:%d" (int_of_nat c.p_id) (zi c.p_x) (int_of_orient c.p_o)) r.dr_cells) in
+  let loose = List.sort compare (List.map (fun c -> int_of_nat c.p_id) s.d_loose) in
+  String.concat ";" (List.map rowS s.d_rows) ^ "|" ^ String.concat "" (List.map (fun i -> string_of_int i ^ " ") loose)
+
+let do_dm () =
+  let nr = nexti () in
+  let rows = rep nr (fun () -> let a = z () in let b = z () in let y = z () in let o = orient_of_int (nexti ()) in (a, b, y, o)) in
+  let nc = nexti () in
+  let cells = List.mapi (fun i (w, x, r, p, o) -> (i, w, x, r, p, o))
+      (rep nc (fun () -> let w = z () in let x = z () in let r = nexti () in let p = pol_of_int (nexti ()) in let o = orient_of_int (nexti ()) in (w, x, r, p, o))) in
+  let mkrow ri (a, b, y, o) =
+    let cs = List.filter (fun (_, _, _, r, _, _) -> r = ri) cells in
+    let cs = List.stable_sort (fun (_, _, x1, _, _, _) (_, _, x2, _, _, _) -> compare (int_of_z x1) (int_of_z x2)) cs in
+    {dr_min=a; dr_max=b; dr_y=y; dr_o=o; dr_cells=List.map (fun (i, w, x, _, p, o) -> {p_id=nat_of_int i; p_x=x; p_w=w; p_pol=p; p_o=o}) cs} in
+  let s = ref {d_rows=List.mapi mkrow rows; d_loose=[]} in
+  let nops = nexti () in
+  let out = Buffer.create 256 in
+  Buffer.add_string out ("INIT " ^ show_dstate !s);
+  let pred_of_int p = if p < 0 then None else Some (nat_of_int p) in
+  for _ = 1 to nops do
+    let t = nexti () in
+    let op = (match t with
+      | 0 -> let a = nexti () in let b = nexti () in MSwap (nat_of_int a, nat_of_int b)
+      | 1 -> let a = nexti () in let r = nexti () in let p = nexti () in MInsert (nat_of_int a, nat_of_int r, pred_of_int p)
+      | 2 -> let a = nexti () in MUnplace (nat_of_int a)
+      | _ -> let a = nexti () in let r = nexti () in let p = nexti () in let x = z () in MPlace (nat_of_int a, nat_of_int r, pred_of_int p, x)) in
+    (match apply_mop !s op with
+     | Some s' -> s := s'; Buffer.add_string out (" / OK " ^ show_dstate !s)
+     | None -> Buffer.add_string out (" / NO " ^ show_dstate !s))
+  done;
+  print_endline (Buffer.contents out)
+
 let () =
   try while true do
     let line = input_line stdin in
@@ -122,6 +155,7 @@ let () =
          (match tag with
           | "RL" -> do_rl ()
           | "RLC" -> do_rlc ()
+          | "DM" -> do_dm ()
           | "OT" -> do_ot ()
           | "LG" -> do_lg ()
           | "LC" -> do_lc ()
